@@ -136,3 +136,5 @@ pub trait Handle<GG, M> {
     /// any further side condition of the call (operator-specific), asserted separately at every call site
     spec fn extra(&self, h: Self::HH, g: GG, c: Self::CC, m: M) -> bool;
 }
+/// reveals a ghost natural number to the environment (same role as `ghost_test`)
+#[verifier::external_body] pub fn ghost_reveal(n: Ghost<nat>) -> (r: usize) ensures r == n@ { unimplemented!() }
